@@ -37,7 +37,7 @@
 
 using vproto::to_hex; using vproto::from_hex;
 
-struct midrec { unsigned id; const cell_type_parameters* ty; bool subject; double V0, Vt0, p0, V, Vt, p, g, vdiv; };
+struct midrec { unsigned id; const cell_type_parameters* ty; bool subject; double V0, Vt0, p0, V, Vt, p, g, vdiv, Vmesh; };
 static std::vector<midrec> g_mid;
 
 template<class B, bool SUBJECT>
@@ -48,7 +48,10 @@ struct probe : B {
         B::apply_internal_forces(dt);
         #pragma omp critical(c04probe)
         g_mid.push_back({this->get_id(), this->get_cell_type().get(), SUBJECT, V0, Vt0, p0, this->get_volume(), this->get_target_volume(),
-                         this->get_pressure(), this->get_growth_rate(), this->get_division_volume()});
+                         this->get_pressure(), this->get_growth_rate(), this->get_division_volume(),
+                         // the enclosed volume of the mesh as it is now (nothing moved since the force phase read it); a static ecm_cell skips
+                         // the whole force phase (ecm_cell::apply_internal_forces), its stored volume is not used for anything
+                         (std::is_base_of<ecm_cell, B>::value && this->is_static()) ? this->get_volume() : this->compute_volume()});
     }
     cell_ptr get_cell_same_type(const mesh& m) noexcept(false) override {
         return std::make_shared<probe<B, SUBJECT>>(m, this->cell_id_, this->cell_type_);
@@ -175,6 +178,8 @@ static void run(const std::vector<std::string>& w){
             std::cout << "mid " << r.id << ' ' << tidx[r.ty] << ' ' << (r.subject ? 1 : 0) << ' ' << to_hex(r.V0) << ' ' << to_hex(r.Vt0) << ' ' << to_hex(r.p0)
                       << ' ' << to_hex(r.V) << ' ' << to_hex(r.Vt) << ' '
                       << to_hex(r.p) << ' ' << to_hex(r.g) << ' ' << to_hex(r.vdiv) << '\n';
+            // separate line (not part of the block the model replays): stored volume against the volume of the current mesh
+            std::cout << "vchk " << r.id << ' ' << tidx[r.ty] << ' ' << to_hex(r.V) << ' ' << to_hex(r.Vmesh) << '\n';
         }
         std::cout << "post" << ids_of(sv.get_cell_lst()) << '\n';
         for(auto& c: sv.get_cell_lst()) dump("state", c);
